@@ -62,12 +62,18 @@ type contracts struct {
 	hashes map[string]string
 	order  []string
 	missing []string // contracts whose function no longer exists
+	fieldQual  map[string]string
+	evalTypes  []string
+	frameRoots []string
+	freshResults []string
+	globalRoots []string
 }
 
 func (c *contracts) get(key string) *funcContract { return c.funcs[key] }
 
 var clauseKeywords = map[string]bool{"func": true, "pred": true, "spec": true, "requires": true, "ensures": true, "assigns": true,
-	"loop": true, "panics": true, "inline": true, "trusted": true, "noreturn": true, "props": true, "pure": true}
+	"loop": true, "panics": true, "inline": true, "trusted": true, "noreturn": true, "props": true, "pure": true,
+	"field": true, "evaltype": true, "frameroot": true, "freshresult": true, "globalroot": true}
 
 func loadContractFile(c *contracts, path string, pkgpath string) error {
 	data, err := os.ReadFile(path)
@@ -210,6 +216,28 @@ func loadContractFile(c *contracts, path string, pkgpath string) error {
 			} else {
 				cur.props = strings.Fields(rest)
 			}
+		case "field": // field Type.name owned|shared
+			f := strings.Fields(rest)
+			if len(f) != 2 {
+				return fmt.Errorf("%s:%d: bad field qualifier", path, r.line)
+			}
+			if c.fieldQual == nil {
+				c.fieldQual = map[string]string{}
+			}
+			c.fieldQual[f[0]] = f[1]
+			cur = nil
+		case "evaltype": // evaltype *pkg.T : objects of this type are only ever allocated by an evaluation
+			c.evalTypes = append(c.evalTypes, strings.Fields(rest)...)
+			cur = nil
+		case "frameroot": // frameroot pkg.func : entry point of the ownership analysis (parameters are shared memory)
+			c.frameRoots = append(c.frameRoots, strings.Fields(rest)...)
+			cur = nil
+		case "globalroot": // globalroot pkg.func : entry point of the "no write to package-level state" analysis
+			c.globalRoots = append(c.globalRoots, strings.Fields(rest)...)
+			cur = nil
+		case "freshresult": // freshresult pkg.func : the first result refers only to memory allocated by the call
+			c.freshResults = append(c.freshResults, strings.Fields(rest)...)
+			cur = nil
 		case "pred", "spec":
 			// pred name(a T, b U) = expr      spec name(a T) R = expr
 			k := strings.Index(rest, "(")
